@@ -309,6 +309,9 @@ fn analyze_fn<'tcx>(tcx: TyCtxt<'tcx>, ldid: LocalDefId, hints: &BTreeMap<String
             mayfail: Vec::new(),
             assume: Vec::new(),
             ncalls: 0,
+            imprecise: false,
+            ranges: Vec::new(),
+            preds: Vec::new(),
         };
         let mut args: Vec<Val> = Vec::new();
         let mut part: Vec<(String, String)> = Vec::new();
@@ -333,7 +336,8 @@ fn analyze_fn<'tcx>(tcx: TyCtxt<'tcx>, ldid: LocalDefId, hints: &BTreeMap<String
                 }
                 Choice::IdxFrom(k) => {
                     part.push((pname.clone(), format!(">={}", k)));
-                    Val::Range { lo: *k, hi: u64::MAX as u128, w: 64 }
+                    st.ranges.push((*k, u64::MAX as u128));
+                    Val::Range { id: (st.ranges.len() - 1) as u32, lo: *k, hi: u64::MAX as u128, w: 64 }
                 }
                 Choice::Variant(v) => {
                     part.push((pname.clone(), format!("variant{}", v)));
@@ -475,6 +479,9 @@ fn const_facts<'tcx>(tcx: TyCtxt<'tcx>, ldid: LocalDefId) -> Option<String> {
         mayfail: Vec::new(),
         assume: Vec::new(),
         ncalls: 0,
+        imprecise: false,
+        ranges: Vec::new(),
+        preds: Vec::new(),
     };
     let val = match tcx.const_eval_poly(did) {
         Ok(cv) => it.render(&st, &it.const_value_to_val(cv, ty), 0),
